@@ -406,7 +406,13 @@ func (l *lexer) next() rune {
 }
 
 func (l *lexer) nextToken() Token {
-	return <-l.tokens
+	tok, ok := <-l.tokens
+	if !ok {
+		// the lexer has finished and closed the channel: report end of input
+		// instead of a zero Token that no parser loop stops on
+		return Token{Location: l.prev, Kind: EOF}
+	}
+	return tok
 }
 
 func (l *lexer) peek() rune {
